@@ -18,8 +18,8 @@ ASSUMPTIONS = [
     "at a union position the strict law is demanded unless the first declared member unmarshaller that accepts the wire form (library's own member routines) returns something else; then the fixpoint law is demanded",
     "dict keys are scalars/enums/literals; unions nested inside set elements / dict keys are only held to the fixpoint law",
 ]
-PLAN = {"quick": dict(programs=1100, values=8, depth=3), "thorough": dict(programs=30000, values=14, depth=5)}
-FLOORS = {"quick": {"roundtrips": 15000, "strict_checked": 12000, "shapes": 1500},
+PLAN = {"quick": dict(programs=6000, values=8, depth=3), "thorough": dict(programs=30000, values=14, depth=5)}
+FLOORS = {"quick": {"roundtrips": 100000, "strict_checked": 90000, "shapes": 6000},
           "thorough": {"roundtrips": 500000, "strict_checked": 400000, "shapes": 30000}}
 
 
@@ -301,8 +301,4 @@ def run_case(sh, i, plan):
 
 def run_shard(sh):
     plan = PLAN[sh.tier]
-    n = per_shard(plan["programs"], sh.nshards, sh.shard)
-    for i in range(n):
-        if not sh.begin_case(i):
-            continue
-        run_case(sh, i, plan)
+    sh.run_cases(per_shard(plan["programs"], sh.nshards, sh.shard), lambda i: run_case(sh, i, plan))
